@@ -209,7 +209,13 @@ static void c16_run(void) {
 	RES.counters[5 + C.stype] = 1; RES.counters[9] = C.caw_late_starts; RES.counters[10] = C.caw_returned_while_running;
 	RES.nontrivial = C.handler_starts > 0 && (sim_st.watched_preempts > 0 || sim_st.fired[K_STALL] > 0);
 }
-static void c16_tune(sim_knobs *k, unsigned cfg, uint64_t *g) { (void)cfg; (void)g; k->alloc_den = 0; k->thrfail_den = 0; if (!k->tick_ns) k->tick_ns = 20; }
+static void c16_tune(sim_knobs *k, unsigned cfg, uint64_t *g) {
+	(void)cfg; (void)g; k->alloc_den = 0; k->thrfail_den = 0; if (!k->tick_ns) k->tick_ns = 20;
+	// a hung-up descriptor keeps the level-triggered event loop spinning until the source is unregistered:
+	// a long stall of the unregistering thread would only burn scheduling points
+	for (int i = 0; i < SIM_MAX_STALLS; i++) if (k->stall_code[i] > 3) k->stall_code[i] = 1 + k->stall_code[i] % 3;
+	k->step_cap = 4000000;
+}
 static const char *const c16_names[] = { "event_handler_invocations", "invocations_started_after_cancel_returned", "cancel_handler_runs", "hangups_merged", "deferred_unregistrations",
 	"timer_runs", "data_runs", "read_runs", "write_runs", "handler_starts_after_cancel_and_wait_returned", "cancel_and_wait_returned_while_handler_running", NULL };
 const prop_def prop_C16 = { "C16", c16_tune, c16_run, c16_names,
